@@ -928,7 +928,11 @@ class Interp:
             return Builtin(n)
         if n in ('True', 'False', 'None'):
             return {'True': True, 'False': False, 'None': None}[n]
-        raise AnalysisError(f"unresolved name {n!r} in module {module}" + (f" line {e.lineno}" if e is not None else ''))
+        import builtins as _b
+        if hasattr(_b, n):
+            raise AnalysisError(f"unresolved name {n!r} in module {module}" + (f" line {e.lineno}" if e is not None else '') + " (a python builtin that is not modelled)")
+        # neither a local, a module-level name, an import nor a builtin: python raises NameError when the statement runs
+        raise AbstractRaise('NameError', f"name '{n}' is not defined", getattr(e, 'lineno', None))
 
     def external(self, dotted):
         if dotted == 'numpy':
